@@ -216,8 +216,8 @@ def check(run):
             if n2 == 't1guard': t3 = 'i == s && z > 1 && f ( k ) > 0'.split()
             texts[n2] = layout(t3, rng, style)
         cases.append(dict(block='t1inv', path='/nta/template[1]/location[1]/label[1]', kind='warning-model', fault='warnings', pos=0, texts=texts, style=style, xml=render(texts), tokens=[]))
-    # a reference to a type that cannot be referenced, in a function's and in a template's parameter list: a diagnostic on a type prefix
-    for bname, bpath, extra in (('gdecl', 'declaration', ' void fq ( void & q ) { }'), ('t1param', 'template[1]/parameter', ' , void & w')):
+    # a reference to a type that cannot be referenced, in the parameter list of a global and of a template-local function: a diagnostic on a type prefix
+    for bname, bpath, extra in (('gdecl', 'declaration', ' void fq ( void & q ) { }'), ('t2decl', 'template[2]/declaration', ' void fw ( int k , void & w ) { }')):
         blocks = base_blocks(rng)
         texts = {n: ' '.join(t) + (extra if n == bname else '') for n, _, _, t in blocks}
         cases.append(dict(block=bname, path='/nta/' + bpath, kind='decl', fault='void-reference', pos=0, texts=texts, style='plain', xml=render(texts), tokens=[]))
